@@ -62,6 +62,8 @@ def verifier_for(spec):
         return sha256_digest_checker
     if spec == 'hmac':
         return HmacChecker.from_key('/k/hmac', b'secret-key')
+    if spec.startswith('hmac:'):
+        return HmacChecker.from_key('/k/hmac', c01.hmac_key(int(spec[5:])))
     if spec == 'rsa':
         return RsaChecker.from_key('/k/rsa/KEY/1', pub_der('rsa2048_0'))
     if spec == 'ecdsa':
@@ -85,6 +87,10 @@ def base_cases(tier):
                         if signer == 'ecdsa' and it > 0 and plen != 5:
                             continue
                         yield {'k': kind, 'name': toks, 'plen': plen, 'signer': signer, 'it': it}
+    # HMAC keys around the 64-byte block size of SHA-256 (empty keys are refused by pycryptodome)
+    for kind in ('I', 'D'):
+        for klen in (1, 63, 64, 65, 200):
+            yield {'k': kind, 'name': ['a'], 'plen': 5, 'signer': f'hmac:{klen}', 'it': 0}
     # unsigned Interests with parameters: digest only
     for toks in (['a'], ['a', 'P', 'K']):
         for plen in (0, 5, 300):
@@ -176,7 +182,7 @@ def first_diff(a, b):
 def mutants(wire, spec, tier):
     n = len(wire)
     pats = (0x01, 0x80, 0xFF)
-    if tier == 'thorough' and spec in ('digest', 'hmac', 'none', 'ed'):
+    if tier == 'thorough' and (spec in ('digest', 'hmac', 'none', 'ed') or spec.startswith('hmac:')):
         for pos in range(n):
             for v in range(256):
                 if v != wire[pos]:
